@@ -8,16 +8,16 @@ CLAIMED = {
      note="agent+runtime polled as one task (as in the server); peers/store/executor are harness code; interleavings finer than a poll approximated by forced yields (coop budget 2..64)"),
  "C02": dict(level="exploration", ref="DESIGN.md §4 C02", technique="deterministic simulation of agent + runtime with colliding map keys; replica-fold oracle against per-key ground truth",
      text="Seeded search over update/remove/clear/take/drop histories (commands and handlers) with small colliding key sets on HashMap- and BTreeMap-backed and String-keyed map lanes; each remote's replica (fold of the frames it read) must equal the lane map at quiescence, per-key values must be in order, clears must not be overtaken.",
-     note="as C01; replica convergence is only demanded of remotes that were linked before the first mutation or completed a sync and did not unlink themselves"),
+     note="as C01; replica convergence is only demanded of remotes that were linked before the first mutation or completed a sync and did not unlink themselves; the MapOperationQueue / EventQueue / WriteQueues structures are additionally driven as components (part queues, incl. head_epoch wrap-around through a poke)"),
  "C03": dict(level="exploration", ref="DESIGN.md §4 C03", technique="deterministic simulation with sync requests placed inside update streams; per-key snapshot-window oracle",
      text="Seeded search over placements of sync requests inside update streams (with and without a preceding link, several remotes syncing at once); at each synced frame every key of the remote's replica must hold a state the lane held between the sync request and that instant, and the remote must converge afterwards.",
-     note="as C01; two genuine defects are recorded in known_findings.json and reported as KNOWN-FINDING"),
+     note="as C01; genuine defects are recorded in known_findings.json and reported as KNOWN-FINDING; the sync queues (WriteQueues inside the real MapStoreInner) are additionally driven as a component (part queues)"),
  "C04": dict(level="exploration", ref="DESIGN.md §4 C04", technique="deterministic simulation with link/sync/unlink churn, unknown lanes, disconnects, mid-stream stop; per (remote,lane) state-machine oracle and body-integrity oracle",
      text="Seeded search over interleavings of link/sync/unlink/command envelopes from several remotes incl. unknown lanes, remotes that freeze or disconnect, stop trigger and inactivity time-out at arbitrary steps; every (remote, lane) frame stream must follow the link state machine, lane-not-found answers must match requests, open links must be closed with unlinked on stop and the disconnection promise fulfilled; every event body must be one the lane produced.",
-     note="as C01; lane failure (W-FAKEAGENT) not built yet"),
+     note="as C01; lane failure is injected through a scripted Agent implementation (agent-c04f); the per-remote Uplinks/RemoteTracker write queue is additionally driven as a component (part uplinks: private product source compiled in with #[path], op sequences against a reference queue, frames decoded from the real byte channel)"),
  "C14": dict(level="exploration", ref="DESIGN.md §4 C14", technique="deterministic simulation with supply bursts, command streams and agent-sent commands to slow targets; exactly-once / order oracles",
      text="Seeded search over push bursts (up to 200 items, far beyond any buffer), command streams from several remotes and ad hoc sends (overwritable and queued) to up to three slow targets; supply items must arrive once and in order at every remote that stays linked, command handlers must run exactly once in each sender's order, forwarded commands must be in order, duplicate-free and only overwritable ones may be superseded.",
-     note="as C01; registered commanders (Commander::send_queued) not exercised yet, only ad hoc sends"),
+     note="as C01; ad hoc sends and registered commanders"),
 }
 
 CLAIMED["C05"] = dict(level="fault_enumeration", ref="DESIGN.md §4 C05", technique="deterministic simulation with a recording store; crash (future dropped / panic inside store call k), store error, stop and time-out placement search; restart on the surviving store",
@@ -25,7 +25,7 @@ CLAIMED["C05"] = dict(level="fault_enumeration", ref="DESIGN.md §4 C05", techni
      note="RecordingStore (public NodePersistence trait) instead of RocksDB; crash points are at poll boundaries and inside store calls, not inside arbitrary instructions")
 CLAIMED["C20"] = dict(level="exploration", ref="DESIGN.md §4 C20", technique="deterministic simulation with NodeReporting enabled; introspection snapshots at every idle point compared with the links implied by the frames the remotes have read",
      text="Seeded search over link/unlink/sync churn, remote disconnects, freezes, stop and time-out with introspection reporting enabled; at every idle point each lane's and the agent's reported uplink count must equal the number of links open according to the frames read (bounds when a remote is frozen or disconnected), the aggregate must equal the sum of the lanes, and the sums of all snapshots must account for every event frame read and every command delivered.",
-     note="as C01; lane failure and the component-level Links / shuttle parts are not built yet")
+     note="as C01; lane failure via agent-c04f; the Links registry + UplinkReporter are additionally driven as a component (part links: sequential op sequences against a reference pair set); counting from several OS threads at once is not explored")
 CLAIMED["C06"] = dict(level="exploration", ref="DESIGN.md §4 C06", technique="deterministic simulation of the real agent model + runtime running generated handler programs (sent as commands) under seeded schedules and timer delays; recorded effect trace compared with a reference interpreter of the documented handler semantics",
      text="Seeded generated acyclic handler programs (trees of set/update/remove/clear/get/effect/and_then/followed_by/sequentially/suspend/fail over 3 value items and 2 map lanes whose derived lifecycle handlers themselves run generated programs) are sent as commands to a real derived agent running on the real agent runtime under the seeded executor with drawn channel sizes, budgets and suspension delays; the trace recorded through effect closures must equal, entry by entry, what a reference interpreter of docs/event_handler.md yields (depth-first, on_event then on_set with the true previous value, on_update/on_remove/on_clear with the true previous entry and map, exactly one trigger per change, on_start first, on_stop last, nothing of a failed handler or of the handlers it interrupted after the failure).",
      note="the order of top-level triggers is taken from the trace (schedule dependent); where the documents are silent the reference follows the code (listed in the evidence assumptions); cyclic programs are not generated")
@@ -40,7 +40,7 @@ CLAIMED["C17"] = dict(level="exploration", ref="DESIGN.md §4 C17", technique="o
      note="shuttle executes every atomic ordering as SeqCst; futures::AtomicWaker stays real")
 CLAIMED["C08"] = dict(level="exploration", ref="DESIGN.md §4 C08", technique="deterministic simulation of the real client downlink tasks driven by scripted notification streams (whole and fragmented frames, interleaved local sets); callback trace compared with a reference fold",
      text="Seeded notification scripts a link can legally produce (linked, events incl. update/remove/clear/take/drop, synced, events, unlinked, relink) under all four settings of events_when_not_synced / terminate_on_unlinked, delivered whole or fragmented down to one byte through the product's byte channel, with local sets interleaved by the schedule, on the real swimos_downlink value and map tasks; every lifecycle callback (kind, key, old and new value, map snapshot, on_synced state) must equal the reference fold; arbitrary (illegal) scripts are checked for absence of panics.",
-     note="only the stand-alone client downlinks are driven: the agent-hosted downlinks and the client/hosted equivalence clause of the property are NOT covered yet")
+     note="client downlinks (dltask-*) and agent-hosted downlinks inside a real agent + runtime (hosted-*) run the same scripts and are compared callback by callback; three recorded differences between the implementations on take/drop are reported as KNOWN-FINDING")
 CLAIMED["C09"] = dict(level="exploration", ref="DESIGN.md §4 C09", technique="deterministic simulation of an arbitrarily chunked text stream (SimPipe: every single cut, random multi-cuts down to 1 byte, Pending between chunks) into the real incremental decoders; round-trip / fixed-point oracles on the same runs",
      text="Seeded generation of typed values, model values (boundary numerics, Unicode, depth up to 64, quoted attribute names, blobs) and grammar-generated / mutated / non-UTF-8 texts, printed with the three printers and fed through a chunking SimPipe into FramedRead over RecognizerDecoder / WithLenRecognizerDecoder and parse_recon_document; the incremental result must equal the one-shot parse for every chunking, typed and parser-produced values must round-trip, arbitrary model values must reach a fixed point after one cycle, nothing may panic or hang.",
      note="single cuts exhaustive up to 256 bytes, sampled beyond; one printer defect is recorded in known_findings.json")
